@@ -9,12 +9,13 @@ from props.C36 import SimSpec
 from tools import sim, vlib
 
 EXPLANATION = (
-    "Replay exploration, not a proof: the model is a function of (hook states, map iteration order, decision script), so its "
-    "determinism is definitional and is not claimed as a result. What is checked on every run: each corpus simulation "
+    "Implementation log = model log on every explored instance, and the model is a function of (hook states, map iteration "
+    "order, decision values) (definitional). What is checked on every run: each corpus simulation "
     "instance (a tick's hook list driven over several rounds of input through the real run_hooks, corpus/C38/*.json) is "
     "executed with random decision inputs twice in one process and once in a fresh process; the complete logs (decisions "
     "actually consumed, simulator decision-log text, released items, remaining queues, hash-map iteration orders, "
-    "panics) of the three runs must be identical, and for the scripted instances also equal to the Coq model's log. "
+    "panics) of the three runs must be identical AND every component, including the decision-log text, must equal the Coq "
+    "model's (Sim/Log.v run_log) - also for the byte-driven instances, whose driver is wrapped to record the values it returns. "
     "Two drivers are used: the scripted/seeded driver (comparable with the model) and bolero's real byte-slice driver "
     "fed random bytes (the driver fuzz_repro uses). Coq theorems proved (Props/C38.v): scheduling predicates "
     "(can_run, readiness) do not depend on the keyed maps' iteration order; a witness shows decision outcomes DO, i.e. "
